@@ -729,6 +729,15 @@ def _str_method(I, o, name):
         if _allc(a):
             return o.lstrip(*a)
         raise OutsideSubset("lstrip on symbolic")
+    def partition(I, a, k):
+        if _allc(a):
+            return o.partition(*[I.force(x) for x in a])
+        raise OutsideSubset("partition on symbolic text")
+
+    def rpartition(I, a, k):
+        if _allc(a):
+            return o.rpartition(*[I.force(x) for x in a])
+        raise OutsideSubset("rpartition on symbolic text")
     fn = locals().get(name)
     if fn is None or name.startswith("_"):
         return None
